@@ -108,8 +108,24 @@ class FaultyStream:
       self.raised = True
       raise SimulatedIOError('simulated stream failure after the last sample')
 
+  def _reusing(self):
+    """A streaming loader that refills ONE preallocated sample (same dict, same arrays) in place."""
+    import numpy as np
+    buf = None
+    for s in self._gen():
+      if buf is None:
+        buf = {k: np.array(v, copy=True) for k, v in s.items()}
+      else:
+        for k, v in s.items():
+          np.copyto(buf[k], v)
+      yield buf
+
   def __iter__(self):
     self.iterations += 1
+    if self.container == 'reuse':
+      if self._it is None:
+        self._it = self._reusing()
+      return self._it
     if self.container in ('gen', 'iter'):
       if self._it is None:
         self._it = self._gen()
@@ -120,6 +136,13 @@ class FaultyStream:
 def make_stream(samples, fail_at, container):
   if container == 'list' and fail_at is None:
     return list(samples), None
+  if container == 'tuple' and fail_at is None:
+    return tuple(samples), None
+  if container == 'tuple':
+    container = 'iter'
+  if container == 'reuse':
+    fs = FaultyStream(samples, fail_at, 'reuse')
+    return fs, fs
   fs = FaultyStream(samples, fail_at, 'iter' if container == 'list' else container)
   return fs, fs
 
